@@ -46,9 +46,46 @@ impl Display for CompoundKind {
     }
 }
 
-#[derive(Debug, Eq, PartialEq, Clone, Default)]
+#[derive(Eq, PartialEq, Clone, Default)]
 pub struct Bind {
     bound_generics: HashMap<Identifier, Arc<XType>>,
+}
+
+/// renders a map with its entries ordered by key text, so that the output (it ends up in
+/// compilation error messages) does not depend on hash iteration order
+struct SortedEntries<'a, V>(Vec<(String, &'a V)>);
+
+impl<'a, V> SortedEntries<'a, V> {
+    fn new<K: Debug + 'a>(entries: impl Iterator<Item = (&'a K, &'a V)>) -> Self {
+        let mut entries: Vec<_> = entries.map(|(k, v)| (format!("{k:?}"), v)).collect();
+        entries.sort_by(|a, b| a.0.cmp(&b.0));
+        Self(entries)
+    }
+}
+
+impl<V: Debug> Debug for SortedEntries<'_, V> {
+    fn fmt(&self, f: &mut Formatter<'_>) -> std::fmt::Result {
+        struct Verbatim<'a>(&'a str);
+        impl Debug for Verbatim<'_> {
+            fn fmt(&self, f: &mut Formatter<'_>) -> std::fmt::Result {
+                f.write_str(self.0)
+            }
+        }
+        f.debug_map()
+            .entries(self.0.iter().map(|(k, v)| (Verbatim(k), v)))
+            .finish()
+    }
+}
+
+impl Debug for Bind {
+    fn fmt(&self, f: &mut Formatter<'_>) -> std::fmt::Result {
+        f.debug_struct("Bind")
+            .field(
+                "bound_generics",
+                &SortedEntries::new(self.bound_generics.iter()),
+            )
+            .finish()
+    }
 }
 
 impl Bind {
@@ -98,12 +135,23 @@ where
     }
 }
 
-#[derive(Clone, Debug, Eq, PartialEq)]
+#[derive(Clone, Eq, PartialEq)]
 pub struct XCompoundSpec {
     pub(crate) name: Identifier,
     pub(crate) generic_names: Vec<Identifier>,
     pub(crate) fields: Vec<XCompoundFieldSpec>,
     pub(crate) indices: HashMap<Identifier, usize>,
+}
+
+impl Debug for XCompoundSpec {
+    fn fmt(&self, f: &mut Formatter<'_>) -> std::fmt::Result {
+        f.debug_struct("XCompoundSpec")
+            .field("name", &self.name)
+            .field("generic_names", &self.generic_names)
+            .field("fields", &self.fields)
+            .field("indices", &SortedEntries::new(self.indices.iter()))
+            .finish()
+    }
 }
 
 impl XCompoundSpec {
